@@ -589,12 +589,13 @@ def x86_kernel(toks, fn, prefix, bits):
     return text
 
 
-LOOP_RE = (r"while bytes \. as_ref \( \) \. len \( \) >= (\d+) \{ let advance = (\w+) \( bytes \. as_ref \( \) \) ; "
-           r"bytes \. advance \( advance \) ; if advance != (\d+) \{ return ; \} \} "
+# (the name of the local holding the kernel's result is free: (?P<v>..) and its back-references)
+LOOP_RE = (r"while bytes \. as_ref \( \) \. len \( \) >= (\d+) \{ let (?P<v>\w+) = (\w+) \( bytes \. as_ref \( \) \) ; "
+           r"bytes \. advance \( (?P=v) \) ; if (?P=v) != (\d+) \{ return ; \} \} "
            r"super :: swar :: (\w+) \( bytes \)(?: ;)?")
-NEON_LOOP_RE = (r"while bytes \. as_ref \( \) \. len \( \) >= (\d+) \{ unsafe \{ let advance = (\w+) "
-                r"\( bytes \. as_ref \( \) \. as_ptr \( \) \) ; bytes \. advance \( advance \) ; "
-                r"if advance != (\d+) \{ return ; \} \} \} super :: swar :: (\w+) \( bytes \)(?: ;)?")
+NEON_LOOP_RE = (r"while bytes \. as_ref \( \) \. len \( \) >= (\d+) \{ unsafe \{ let (?P<v>\w+) = (\w+) "
+                r"\( bytes \. as_ref \( \) \. as_ptr \( \) \) ; bytes \. advance \( (?P=v) \) ; "
+                r"if (?P=v) != (\d+) \{ return ; \} \} \} super :: swar :: (\w+) \( bytes \)(?: ;)?")
 
 
 def g4_loop(toks, fn, modname, regex):
@@ -605,7 +606,7 @@ def g4_loop(toks, fn, modname, regex):
     if not m:
         raise TranslationError("%s::%s is no longer the block loop the model assumes:\n  %s"
                                % (modname, fn, norm(body)))
-    return int(m.group(1)), m.group(2), int(m.group(3)), m.group(4)
+    return int(m.group(1)), m.group(3), int(m.group(4)), m.group(5)
 
 
 def g34_x86(toks, modname, prefix, bits, kernels):
@@ -898,13 +899,26 @@ def g5_cfg(mod_toks, rt_toks, files=None):
             '{ SSE42 } else { NOP }')
     if norm(body) != want:
         raise TranslationError("runtime.rs detect_runtime_feature changed: " + norm(body))
+    # any further `const NAME: u8 = <literal>;` of runtime.rs (e.g. a name for the "not detected yet" value 0) is
+    # resolved to its literal before the two texts below are compared
+    extra = {}
+    for i in range(len(rt_toks) - 6):
+        if rt_toks[i] == ("ident", "const") and rt_toks[i + 1][0] == "ident" and rt_toks[i + 1][1] not in consts \
+                and norm(rt_toks[i + 2:i + 5]) == ": u8 =" and rt_toks[i + 6] == ("op", ";"):
+            try:
+                extra[rt_toks[i + 1][1]] = str(byte_value(rt_toks[i + 5]))
+            except Exception:
+                pass
+
+    def rnorm(toks):
+        return norm([("int", extra[t[1]]) if t[0] == "ident" and t[1] in extra else t for t in toks])
     hdr, body = fn_body(rt_toks, "get_runtime_feature")
     want = ("let mut feature = RUNTIME_FEATURE . load ( Ordering :: Relaxed ) ; if feature == 0 { feature = "
             "detect_runtime_feature ( ) ; RUNTIME_FEATURE . store ( feature , Ordering :: Relaxed ) ; } feature")
-    if norm(body) != want:
+    if rnorm(body) != want:
         raise TranslationError("runtime.rs get_runtime_feature changed: " + norm(body))
     i = find_item(rt_toks, "static", "RUNTIME_FEATURE")
-    if norm(rt_toks[i:i + 12]) != "static RUNTIME_FEATURE : AtomicU8 = AtomicU8 :: new ( 0 ) ;":
+    if rnorm(rt_toks[i:i + 12]) != "static RUNTIME_FEATURE : AtomicU8 = AtomicU8 :: new ( 0 ) ;":
         raise TranslationError("runtime.rs RUNTIME_FEATURE changed: " + norm(rt_toks[i:i + 12]))
     out.append("Definition RT_AVX2 : N := %d.\nDefinition RT_SSE42 : N := %d.\nDefinition RT_NOP : N := %d.\n"
                % (consts["AVX2"], consts["SSE42"], consts["NOP"]))
@@ -1163,9 +1177,29 @@ def main():
     repo, outdir = sys.argv[1], sys.argv[2]
     os.makedirs(outdir, exist_ok=True)
 
+    # the block kernels are identified by ROLE (the function the scanner shell calls on `bytes.as_ref()`), not by
+    # name: a kernel that was renamed is given its canonical name back before anything is translated
+    CANON = {"src/simd/sse42.rs": {"match_uri_vectored": "match_url_char_16_sse",
+                                   "match_header_value_vectored": "match_header_value_char_16_sse"},
+             "src/simd/avx2.rs": {"match_uri_vectored": "match_url_char_32_avx",
+                                  "match_header_value_vectored": "match_header_value_char_32_avx"},
+             "src/simd/neon.rs": {"match_uri_vectored": "match_url_char_16_neon",
+                                  "match_header_value_vectored": "match_header_value_char_16_neon",
+                                  "match_header_name_vectored": "match_header_name_char_16_neon"}}
+
     def toks(rel):
         with open(os.path.join(repo, rel)) as f:
-            return lex(f.read())
+            t = lex(f.read())
+        for shell, canon in CANON.get(rel, {}).items():
+            try:
+                _, body = fn_body(t, shell)
+            except Exception:
+                continue
+            m = re.search(r"= (\w+) \( bytes \. as_ref \( \)", norm(body))
+            if m and m.group(1) != canon and not any(x == ("ident", canon) for x in t):
+                old_name = m.group(1)
+                t = [("ident", canon) if x == ("ident", old_name) else x for x in t]
+        return t
 
     errors = []
     files = {}
